@@ -92,6 +92,20 @@ def inputs(t, rnd):
             if a in name:
                 vals.append(name.replace(a, b, 1))
                 vals.append(name.upper().replace(a.upper(), b, 1))
+    # function notation with every kind of function name - colour functions and the ones a stylesheet value can hold instead
+    # (var, url, calc, env, attr, newer colour functions) - in every letter case (CSS function names are case-insensitive),
+    # complete, empty, unclosed and with stray blanks
+    fnames = ["rgb", "rgba", "hsl", "hsla", "var", "url", "calc", "env", "attr", "color", "lab", "lch", "hwb", "oklch", "color-mix",
+              "linear-gradient", "min", "clamp", "-webkit-gradient", "light-dark"]
+    bodies = ["--x", "--x, #fff", "--Brand, #fff", "", " ", " --x ", "1, 2, 3", "1 2 3", "x.png", "\"a\"", "--x, var(--y)", "in srgb, red, blue",
+              "120, 50%, 50%", "1, 2, 3, 0.5", "--"]
+    for fnm in fnames:
+        for cv in (fnm, fnm.upper(), fnm.capitalize(), fnm[0] + fnm[1:].upper(), "".join(ch.upper() if k_ % 2 else ch for k_, ch in enumerate(fnm))):
+            for bd in bodies:
+                vals.append(f"{cv}({bd})")
+                if rnd.random() < 0.3:
+                    vals.append(f"{cv}({bd}")
+                    vals.append(f" {cv} ({bd})")
     for _ in range(15000 if t == "quick" else 300000):
         s = rnd.choice(VALID_CSS)
         for _ in range(rnd.randrange(1, 4)):
